@@ -525,6 +525,9 @@ def check_histories(ctx, rule="C09.H", thorough=False):
                 jobs.append((cfg, (("py", POST.format(n=n_), 0), ("new",), ("flush",), ("meas", 0))))
         jobs.append((cfg, (("py", RECV_POST.format(n=1), 1), ("new",), ("meas", 0))))
         jobs.append((cfg, (("new",), ("py", CTX.format(n=2, seq=True), 0), ("meas", 0))))
+        # (a sequential request for as many pairs as the application has qubits, and more: all of them pass through one id)
+        jobs.append((cfg, (("new",), ("py", CTX.format(n=3, seq=True), 0), ("meas", 0))))
+        jobs.append((cfg, (("new",), ("gate", 0), ("flush",), ("py", CTX.format(n=4, seq=True), 0), ("meas", 0))))
     # pairs delivered while the live ids have a hole (a handle with a lower id was freed)
     for cfg in (("generic", 3, False), ("generic", 4, False)):
         jobs.append((cfg, (("new",), ("new",), ("free", 0), ("create", 2))))
